@@ -37,7 +37,7 @@ def terms(r, tier):
         out.append((None, (1, 2, 3), None, p, None, None))
     for p in devs:
         out.append((None, (1, 2, 3), None, None, p, None))
-    n = 400 if tier == "quick" else 8000
+    n = 2500 if tier == "quick" else 20000
     for _ in range(n):
         out.append((r.choice([None, 0, 1, 2, 10, 100, 2024]), r.choice(rel + [(r.randrange(1000), r.randrange(1000), r.randrange(1000))]), r.choice(pres), r.choice(posts), r.choice(devs), r.choice(LOCALS)))
     return out
@@ -109,9 +109,9 @@ def run(tier: str, drv_ok: bool) -> dict:
     res = {"sweep": sweep(tier)}
     if drv_ok:
         r = rng("C11corr")
-        cs = corr_fmt.version_cases(r, 200 if tier == "quick" else 2500)
+        cs = corr_fmt.version_cases(r, 300 if tier == "quick" else 2500)
         from common import esc
-        for term in r.sample(terms(r, "quick"), 500):
+        for term in r.sample(terms(r, "quick"), 900):
             s, f = render(term)
             for strict in (False, True):
                 cs.add("version.parse", [s, corr_fmt.wopt(f), "1" if strict else "0"], corr_fmt.parse_outcome("version", Version, s, f, strict))
